@@ -160,7 +160,17 @@ func TestC10(t *testing.T) {
 			if ok, why := w.Quiesce(); !ok {
 				inc = why
 			}
-			if pausedAt >= 0 {
+			// resume whenever the response is found paused at sustained quiescence (the pause may only take
+			// effect after the first quiescent point above if that one fell into a lull of a long traversal)
+			for round := 0; round < 6 && inc == ""; round++ {
+				got, why := AwaitTerminal(w, A, S.ID, id)
+				if why != "" {
+					inc = why
+					break
+				}
+				if got || S.Impl.PeerState(A.ID).IncomingState.RequestStates[id] != graphsync.Paused {
+					break
+				}
 				ctx, cancel := context.WithTimeout(context.Background(), 20*time.Second)
 				_ = S.GS.Unpause(ctx, id)
 				cancel()
